@@ -256,6 +256,9 @@ def state_family(rng, n, kind):
         vals = list(range(n))
     elif kind == 'permint':
         vals = rng.sample(range(-3, 40), n)
+    elif kind == 'smallint':
+        # small ints around zero, negatives included (valid list indices)
+        vals = rng.sample(range(-n - 1, n + 1), n)
     elif kind == 'bigint':
         vals = rng.sample([2 ** 61 - 1, -2 ** 40, 10 ** 12, 7, 2 ** 64 + 3,
                            -1, 255, 65536], n)
@@ -285,5 +288,5 @@ def state_family(rng, n, kind):
     return [enc_value(v) for v in vals]
 
 
-FAMILIES = ['permint', 'str', 'words', 'tuple', 'nested', 'float', 'mixed',
+FAMILIES = ['permint', 'smallint', 'str', 'words', 'tuple', 'nested', 'float', 'mixed',
             'obj', 'tupobj', 'bigint']
